@@ -648,6 +648,14 @@ def execute_under(arg):
         outcomes.append(out)
         if arg.get("probe"):
             _measure(op, all_dts, stats)
+    if arg.get("probe"):
+        # does the zone change its offset between the domain ends?
+        try:
+            a, b = iso2dt(plan["domain"][0]), iso2dt(plan["domain"][1])
+            if (a - EPOCH).total_seconds() - a.timestamp() != (b - EPOCH).total_seconds() - b.timestamp():
+                stats["probe:jump_inside_domain"] = 1
+        except (OverflowError, OSError, ValueError):
+            pass
     return {"outcomes": outcomes, "stats": stats, "clock_readings": len(clock.readings)}
 
 
@@ -766,8 +774,6 @@ def execute(plan):
         counters["subprocess_crosschecks"] = 1
         if sub != got["outcomes"]:
             raise HarnessError("tzset()-in-child and TZ-at-process-start disagree for zone %r" % zone["tz"])
-    if has_dst and run_isolated(_jump_inside_domain, plan):
-        counters["probe:jump_inside_domain"] = 1
     sets = {
         "zone_rules": [h64(zone["tz"])],
         "domain_granularity_x_zone": [h64([plan.get("level"), zone["tz"]])],
